@@ -26,6 +26,10 @@ CLAIMED = {
     'C12': ('Bounded model checking of the interval dynamic programme optimalPartition (and its wiring through optimalSegmentation) on a fully symbolic '
             'cost matrix: on every path the returned partition is proved optimal against all 2^(N-2) enumerated partitions, for both directions.',
             'DESIGN.md#c12', 'N <= 5 candidates fully explored (thorough: N = 6 under budget); costs in [0,100]', ''),
+    'C18': ('Bounded model checking of DTW / fast DTW / discrete Frechet matching on symbolic heights (dim=1) and on a free symbolic cost matrix '
+            '(dim=<function>): on every path the score is proved equal to the minimum over all enumerated monotone couplings and the returned matching is '
+            'proved to be such a coupling accumulating exactly the score.',
+            'DESIGN.md#c18', 'sizes <= 3x3 (FDTW n1*n2 <= 6 in quick), p in {1, inf} everywhere, p = 2 on small free matrices', ''),
 }
 
 NOT_YET = {}
